@@ -1206,6 +1206,10 @@ class BareServer():
                 steward.requestant.parse()
 
                 if steward.requestant.ended:
+                    if steward.requestant.errored:  # malformed request so give up
+                        sys.stderr.write(steward.requestant.error)
+                        self.closeConnection(ca)
+                        continue
                     steward.requestant.dictify()
                     logger.info("Parsed Request: %s %s %s",
                                 steward.requestant.method,
